@@ -5,7 +5,7 @@ id=$1; p=$2; tier=${3:-quick}
 patch=$id; [ -f "$patch" ] || patch=/verif/seeded/$id/patch.diff; [ -f "$patch" ] || patch=/tmp/seed/$id/SEED/patch.diff
 [ -f "$patch" ] || { echo "no patch for $id"; exit 2; }
 wt=$(mktemp -d /tmp/recheck.XXXXXX); tmp=$(mktemp -d /tmp/recheck-out.XXXXXX)
-git -C /repo worktree add -q --detach $wt/r || exit 2
+git -C /repo worktree add -q --detach $wt/r ${BASE:-HEAD} || exit 2
 git -C $wt/r apply "$patch" || { git -C /repo worktree remove --force $wt/r; rm -rf $wt $tmp; echo "patch does not apply"; exit 2; }
 VERIF_REPO=$wt/r VERIF_EVIDENCE_DIR=$tmp/ev VERIF_REPLAY_DIR=$tmp/rep /verif/check $p $tier 2>&1 | grep -E "^check |^VIOLATION|^violation class|^KNOWN|INFRA|HARNESS" | head -${RECHECK_LINES:-6}
 rc=$?
